@@ -40,11 +40,26 @@
 
 #if SKINNY_X86_CPUID
 
+#if defined(SKINNY_C_VERIF) && defined(SKINNY_C_VERIF_CPUID)
+/* Verification hook: CPU identification queries are answered by a
+   checking harness (a model of a CPU and operating system) instead
+   of the host.  Inactive unless both macros are defined. */
+extern uint32_t skinny_c_verif_cpuid_max(void);
+extern void skinny_c_verif_cpuid
+    (uint32_t leaf, uint32_t subleaf, uint32_t regs[4]);
+extern uint64_t skinny_c_verif_xgetbv(uint32_t index);
+#endif
+
 /* Queries a CPUID leaf and sub-leaf.  All four registers are zero if
    the leaf is beyond the highest basic leaf that the CPU supports */
 static void skinny_cpuid(uint32_t leaf, uint32_t subleaf, uint32_t regs[4])
 {
     regs[0] = regs[1] = regs[2] = regs[3] = 0;
+#if defined(SKINNY_C_VERIF) && defined(SKINNY_C_VERIF_CPUID)
+    if (skinny_c_verif_cpuid_max() >= leaf)
+        skinny_c_verif_cpuid(leaf, subleaf, regs);
+    return;
+#endif
     if (__get_cpuid_max(0, 0) >= leaf)
         __cpuid_count(leaf, subleaf, regs[0], regs[1], regs[2], regs[3]);
 }
@@ -56,6 +71,9 @@ static void skinny_cpuid(uint32_t leaf, uint32_t subleaf, uint32_t regs[4])
 static uint64_t skinny_xgetbv0(void)
 {
     uint32_t lo, hi;
+#if defined(SKINNY_C_VERIF) && defined(SKINNY_C_VERIF_CPUID)
+    return skinny_c_verif_xgetbv(0);
+#endif
     __asm__ __volatile__ (
         ".byte 0x0f, 0x01, 0xd0"    /* xgetbv */
         : "=a"(lo), "=d"(hi) : "c"(0)
